@@ -186,6 +186,26 @@ func runC06() {
 			}
 		}
 	}
+	// literal ranges LARGER than the optimizer's folding window (10^6 elements) are built at run time in every mode:
+	// under the default budget (10^6) they must be refused, wherever zero lies between the bounds
+	for _, b := range [][2]int{{-600000, 600000}, {-1000000, 1000000}, {0, 1000000}, {1, 1000001}, {-1, 1000000}, {-1000001, 0}, {-999999, 2}, {-500000, 500001}} {
+		for _, form := range []string{"len(%d..%d)", "(%d..%d)[0]", "len(%d..%d) + len(1..3)"} {
+			src := fmt.Sprintf(form, b[0], b[1])
+			for _, m := range []coreMode{modeUntyped, modeTypedOpt} {
+				_, prog, _, err := pipeline(src, m.options(envs[0]))
+				if err != nil {
+					continue
+				}
+				r, used := runWithBudget(prog, envs[0], 1000000)
+				rep.Evaluations++
+				if !isBudgetErr(r.err) {
+					rep.fail(Failure{Key: "C06-completed-at-budget", What: "a run that creates at least as many elements as the budget completed (literal range above the folding window)",
+						Input: map[string]interface{}{"src": src, "mode": m.Name, "budget": 1000000, "need": b[1] - b[0] + 1},
+						Want:  "memory budget exceeded", Got: fmt.Sprintf("%v / %v (accounted %d)", clip(fmt.Sprint(r.out)), r.err, used)})
+				}
+			}
+		}
+	}
 	rep.Distinct = len(distinct)
 	rep.Rule = "allocating expressions (array/map literals, run-time ranges with ascending, empty and descending bounds chosen by the environment, map/filter results, nestings to depth 3) compiled untyped and typed+optimized; for each environment the ideal run (budget 2^61) gives the need N read from the VM's counter (verif hook) and cross-checked against the elements visible in the result; then budgets N+1, N, 1, 2, N/2, N+17, 10^6: success with the same result iff budget > N, 'memory budget exceeded' iff budget <= N; distinct_nontrivial = distinct (source, mode, environment) with N >= 1; the runs with the first three budgets are also evaluated in the Coq VM and reference semantics"
 	for i := 0; i < 5 && i < len(srcs); i++ {
